@@ -414,6 +414,8 @@ inductive Op where
   | sappend (d : Nat) (w : String)            -- v[d] += "w"             (EXTEND_SVALUE_STRING)
   | sjoin (d t : Nat)                         -- v[d] += v[t]            (SVALUE_STRING_JOIN)
   | sadd (d s : Nat) (w : String)             -- v[d] = v[s] + "w"       (EXTEND_SVALUE_STRING on the pushed copy)
+  | saddl (d s : Nat) (w : String)            -- v[d] = <number w> + v[s]   (SVALUE_STRING_ADD_LEFT: always a new block)
+  | sadd2 (d s t : Nat)                       -- v[d] = v[s] + v[t]         (SVALUE_STRING_JOIN on two pushed copies)
   | schar (d i : Nat) (w : String)            -- v[d][i] = 'w'           (unlink_string_svalue + byte store)
   | srange (d i j : Nat) (w : String)         -- v[d][i..j] = "w"        (unlink_string_svalue + copy_lvalue_range)
   | clones (n : Nat) | unclone (n : Nat)   -- n further clones of /c06/uobj (only their program reference is modelled)
@@ -955,8 +957,21 @@ def compile (s : St) (op : Op) : Option (List Mi) :=
               | none => false)
             | _ => false)
           | none => false
+        -- an argument that is a destructed object: the callback's local is released and zeroed when it is pushed
+        -- (the interpreter never hands out destructed objects), so the new input_to captures 0
+        let deadArg : Nat → Bool := fun k => match s.heap[vs]? with
+          | some vsc => (match (vsc.items[k]? : Option Val) with
+            | some (Val.ptr a) => (match s.heap[a]? with
+              | some ac => ac.kind == .obj && ac.destructed
+              | none => false)
+            | _ => false)
+          | none => false
         let rearm := if scell.tag == 1 && ownerAlive then
-            [Mi.alloc .arr 2 false "" 0, .dup (.root (top + 1)), .put (.item fresh 0), .dup (.root top), .put (.item fresh 1),
+            [Mi.alloc .arr 2 false "" 0] ++
+            (if deadArg 1 then [Mi.take (.root (top + 1)), .free] else [Mi.dup (.root (top + 1)), .put (.item fresh 0)]) ++
+            (if deadArg 0 then [Mi.take (.root top), .free] else [Mi.dup (.root top), .put (.item fresh 1)]) ++
+            [
+
              .alloc .fn 2 false "" 0, .dup (.item fnc 1), .put (.item (fresh + 1) 1),
              .alloc .sent 2 false "" 0, .swap, .put (.item (fresh + 2) 1), .swap, .put (.item (fresh + 2) 0),
              .put (.root rInput)]
@@ -994,6 +1009,27 @@ def compile (s : St) (op : Op) : Option (List Mi) :=
               [.take (.root d), .free, .take (.root top), .put (.root d), .popRoot])
       else none
     | none => none
+  | .saddl d a w =>
+    match strSlot s a with
+    | some (_, cell) =>
+      if d < nSlots && a < nSlots then
+        -- the string operand is pushed, a new block is built from the number's text and it, the pushed copy released
+        some [.pushRoot, .dup (.root a), .put (.root top), .alloc .mstr 0 true (w ++ cell.text) 0,
+              .take (.root top), .free, .popRoot, .take (.root d), .free, .put (.root d)]
+      else none
+    | none => none
+  | .sadd2 d a t =>
+    match strSlot s a, strSlot s t with
+    | some (c, cell), some (ct, tcell) =>
+      if d < nSlots && a < nSlots && t < nSlots then
+        -- both operands are pushed copies: the counter of the left block is at least 2 when the join decides
+        let r := incRef cell.kind (if ct == c then incRef cell.kind cell.ref 1 else cell.ref) 1
+        some ([.pushRoot, .dup (.root a), .put (.root top), .pushRoot, .dup (.root t), .put (.root (top + 1))] ++
+              (if NV.Gen.C06.joinInPlace (cell.kind == .mstr) r then [Mi.inplace c] else []) ++
+              [.alloc .mstr 0 true (cell.text ++ tcell.text) 0, .take (.root (top + 1)), .free, .popRoot,
+               .take (.root top), .free, .popRoot, .take (.root d), .free, .put (.root d)])
+      else none
+    | _, _ => none
   | .schar d i w =>
     match strSlot s d with
     | some (c, cell) =>
